@@ -864,7 +864,11 @@ func (x *Exec) allocSize(st *State, in ssa.Instruction, n *Term, elemSize int) {
 		return
 	}
 	ts := x.w.ts
-	alts := []*Term{x.w.bvsle(n, ts.BV((1<<20)+64, 64))}
+	limit := uint64(1<<20) + 64
+	if x.allocLimit != 0 {
+		limit = x.allocLimit
+	}
+	alts := []*Term{x.w.bvsle(n, ts.BV(limit, 64))}
 	for _, l := range x.availLens {
 		alts = append(alts, x.w.bvsle(n, x.bvOp("bvadd", l, ts.BV(64, 64))))
 	}
